@@ -25,9 +25,11 @@ VARIABLES
   sid,      \* <<c, e>> -> stream id of the object (absent until assigned)
   closereq, \* set of channels on which close() was called by either side
   healed,   \* the network has stopped misbehaving
-  probes    \* message ids sent after the network healed (C06 recovery)
+  probes,   \* message ids sent after the network healed (C06 recovery)
+  closepre, \* channels on which close() was called while the association was not established
+  rclost    \* a datagram carrying a RE-CONFIG chunk was lost
 
-obsvars == <<chans, sentm, dlv, rs, nopen, nclose, ndc, sid, closereq, healed, probes>>
+obsvars == <<chans, sentm, dlv, rs, nopen, nclose, ndc, sid, closereq, healed, probes, closepre, rclost>>
 
 Peer(e) == IF e = "A" THEN "B" ELSE "A"
 SeqAt(f, k) == IF k \in DOMAIN f THEN f[k] ELSE <<>>
@@ -43,6 +45,7 @@ ObsInit ==
   /\ chans = <<>> /\ sentm = <<>> /\ dlv = <<>> /\ rs = <<>>
   /\ nopen = <<>> /\ nclose = <<>> /\ ndc = <<>> /\ sid = <<>>
   /\ closereq = {} /\ healed = FALSE /\ probes = {}
+  /\ closepre = {} /\ rclost = FALSE
 
 -----------------------------------------------------------------------------
 (* Clause evaluation.  Each operator returns "ok" or the name of the first   *)
@@ -90,9 +93,11 @@ LiveIds(e, c) == { sid[k] : k \in { k2 \in DOMAIN sid : k2[2] = e /\ k2[1] # c
                                       /\ k2 \in DOMAIN rs /\ rs[k2] # 3 } }
 
 \* the object of channel c at e got stream id s (auto = chosen by the library)
+\* (an id is free for reuse only once the channel that used it is closed at BOTH ends)
 IdVerdict(c, e, s, auto) ==
   IF auto /\ (s % 2) # (IF e = "A" THEN 1 ELSE 0) THEN "C13.id_parity"
   ELSE IF s \in LiveIds(e, c) THEN "C13.id_collision"
+  ELSE IF s \in LiveIds(Peer(e), c) THEN "C13.id_reuse_before_peer_closed"
   ELSE IF <<c, Peer(e)>> \in DOMAIN sid /\ sid[<<c, Peer(e)>>] # s THEN "C13.id_mismatch"
   ELSE "ok"
 
@@ -140,7 +145,12 @@ QuiesceVerdict(epA, epB, chq, pr) ==
      ELSE IF \E c \in DOMAIN chans, e \in {"A", "B"} : probeLost(c, e) THEN "C06.no_recovery"
      ELSE IF \E x \in chq : x.s \in {1, 2} /\ ep(x.e).connected /\ x.b # 0 THEN "C02.buffered_nonzero"
      ELSE IF \E x \in chq : ep(x.e).closed /\ x.s # 3 THEN "C13.assoc_end_not_closed"
-     ELSE IF \E x \in chq : bothUp /\ x.c \in closereq /\ x.s # 3 THEN "C13.close_incomplete"
+     ELSE IF \E x \in chq : bothUp /\ x.c \in closereq /\ x.s # 3 /\ x.c \notin closepre /\ ~rclost
+            THEN "C13.close_incomplete"
+     ELSE IF \E x \in chq : bothUp /\ x.c \in closereq /\ x.s # 3 /\ x.c \in closepre
+            THEN "C13.close_incomplete.before_established"
+     ELSE IF \E x \in chq : bothUp /\ x.c \in closereq /\ x.s # 3
+            THEN "C13.close_incomplete.reconfig_lost"
      ELSE IF \E x \in chq : bothUp /\ x.s = 0 /\ x.c \in DOMAIN chans THEN "C13.never_opened"
      ELSE "ok"
 
@@ -151,44 +161,49 @@ DoCreate(c, e, ordered, rel, negotiated, first) ==
   /\ chans' = IF first THEN Upd(chans, c, [ordered |-> ordered, rel |-> rel,
                                             negotiated |-> negotiated, creator |-> e])
               ELSE chans
-  /\ UNCHANGED <<sentm, dlv, rs, nopen, nclose, ndc, sid, closereq, healed, probes>>
+  /\ UNCHANGED <<sentm, dlv, rs, nopen, nclose, ndc, sid, closereq, healed, probes, closepre, rclost>>
 
 DoSend(c, e, m, probe) ==
   /\ sentm' = Upd(sentm, <<c, e>>, Append(SeqAt(sentm, <<c, e>>), m))
   /\ probes' = IF probe THEN probes \cup {m} ELSE probes
-  /\ UNCHANGED <<chans, dlv, rs, nopen, nclose, ndc, sid, closereq, healed>>
+  /\ UNCHANGED <<chans, dlv, rs, nopen, nclose, ndc, sid, closereq, healed, closepre, rclost>>
 
 DoMsg(c, e, m) ==
   /\ dlv' = Upd(dlv, <<c, e>>, Append(SeqAt(dlv, <<c, e>>), m))
-  /\ UNCHANGED <<chans, sentm, rs, nopen, nclose, ndc, sid, closereq, healed, probes>>
+  /\ UNCHANGED <<chans, sentm, rs, nopen, nclose, ndc, sid, closereq, healed, probes, closepre, rclost>>
 
 DoState(c, e, s) ==
   /\ rs' = Upd(rs, <<c, e>>, s)
-  /\ UNCHANGED <<chans, sentm, dlv, nopen, nclose, ndc, sid, closereq, healed, probes>>
+  /\ UNCHANGED <<chans, sentm, dlv, nopen, nclose, ndc, sid, closereq, healed, probes, closepre, rclost>>
 
 DoOpenEv(c, e) ==
   /\ nopen' = Upd(nopen, <<c, e>>, NatAt(nopen, <<c, e>>) + 1)
-  /\ UNCHANGED <<chans, sentm, dlv, rs, nclose, ndc, sid, closereq, healed, probes>>
+  /\ UNCHANGED <<chans, sentm, dlv, rs, nclose, ndc, sid, closereq, healed, probes, closepre, rclost>>
 
 DoCloseEv(c, e) ==
   /\ nclose' = Upd(nclose, <<c, e>>, NatAt(nclose, <<c, e>>) + 1)
-  /\ UNCHANGED <<chans, sentm, dlv, rs, nopen, ndc, sid, closereq, healed, probes>>
+  /\ UNCHANGED <<chans, sentm, dlv, rs, nopen, ndc, sid, closereq, healed, probes, closepre, rclost>>
 
 DoDcEvent(c) ==
   /\ ndc' = Upd(ndc, c, NatAt(ndc, c) + 1)
-  /\ UNCHANGED <<chans, sentm, dlv, rs, nopen, nclose, sid, closereq, healed, probes>>
+  /\ UNCHANGED <<chans, sentm, dlv, rs, nopen, nclose, sid, closereq, healed, probes, closepre, rclost>>
 
 DoId(c, e, s) ==
   /\ sid' = Upd(sid, <<c, e>>, s)
-  /\ UNCHANGED <<chans, sentm, dlv, rs, nopen, nclose, ndc, closereq, healed, probes>>
+  /\ UNCHANGED <<chans, sentm, dlv, rs, nopen, nclose, ndc, closereq, healed, probes, closepre, rclost>>
 
-DoCloseReq(c) ==
+DoCloseReq(c, est, hasid) ==
   /\ closereq' = closereq \cup {c}
-  /\ UNCHANGED <<chans, sentm, dlv, rs, nopen, nclose, ndc, sid, healed, probes>>
+  /\ closepre' = IF ~est /\ hasid THEN closepre \cup {c} ELSE closepre
+  /\ UNCHANGED <<chans, sentm, dlv, rs, nopen, nclose, ndc, sid, healed, probes, rclost>>
+
+DoDrop(reconfig) ==
+  /\ rclost' = (rclost \/ reconfig)
+  /\ UNCHANGED <<chans, sentm, dlv, rs, nopen, nclose, ndc, sid, closereq, healed, probes, closepre>>
 
 DoHeal ==
   /\ healed' = TRUE
-  /\ UNCHANGED <<chans, sentm, dlv, rs, nopen, nclose, ndc, sid, closereq, probes>>
+  /\ UNCHANGED <<chans, sentm, dlv, rs, nopen, nclose, ndc, sid, closereq, probes, closepre, rclost>>
 
 -----------------------------------------------------------------------------
 (* Invariants: the "at every instant" reading of C01 / C06 on the history   *)
